@@ -78,6 +78,9 @@ def cases(shard, rnd):
         for n in (131065, 131072, 131073, 200000, 1 << 20):
             yield {'t': 'body', 'body': bytes([n % 251]) * n,
                    'ch': gf.rchannel(rnd)}
+        # the encoder also emits a frame for an EMPTY body
+        for ch in (0, 1, 65535):
+            yield {'t': 'body', 'body': b'', 'ch': ch}
         sp = refspec.BY_NAME['Queue.Declare']
         vals = gf.assignment(rnd, sp)
         vals['arguments'] = {'k%05d' % i: 'v' * 20 for i in range(5000)}
